@@ -381,3 +381,46 @@ CHECKS = {
         min_share=dict(any={"renumbered_same_group_size": ["discovery_histories", 0.3]}),
     ),
 }
+
+# Dimensions added after the seeded-change rounds 2-4 (DESIGN 13.1): appended to the rule texts above.
+_MORE = {
+    "C01": "Later additions: a third of the histories run with checkpoint.autoReset=latest (the crash oracle skips the documented start of a "
+           "group without any checkpoint); transient / final stream ends and rebalances inside the histories (an event is identified by its "
+           "seqno: one acknowledgement of either delivery settles it); unit RollbackRestart on the wire: the restart is answered with a "
+           "ROLLBACK and the re-stream may omit the checkpointed seqno - everything above the checkpoint must be delivered again.",
+    "C02": "Later additions: histories on the real file backend (every assigned vBucket's last value is in the file; restart resumes from it); "
+           "read-only metadata mode through the real Dcp.Start() with injected and file backends, incl. a second session in the same process "
+           "after another member advanced the stored checkpoints.",
+    "C04": "Later additions: failovers and transient stream ends (re-request on the new branch) inside the histories, so that late acknowledgements "
+           "of old-branch events meet a position settled on the new branch.",
+    "C05": "Later additions: savequeue (a Save issued while one is in flight); the same histories on the file backend with the file read back after "
+           "every save; unit CouchbaseBackend: real cbMetadata on the simulated node, which rejects a generated subset of ONE save's per-vBucket "
+           "writes (the others complete before / after) - after the next undisturbed save every acknowledged position must be on the node.",
+    "C06": "Later additions: transient stream ends (the re-request tuple is judged like every other offset handed out); unit RollbackBranch on the "
+           "wire: after a server-requested rollback every delivered offset carries the vbUUID of the branch named by the second response.",
+    "C08": "Later additions: none to the generator; the executor is shared with C01 RollbackRestart and C06 RollbackBranch.",
+    "C10": "Later additions: leadership is taken through the real handler (stream.NewLeaderElection(...).OnBecomeLeader) with a generated number of "
+           "followers registered before the callback runs.",
+    "C11": "Later additions: mode busdelay (real Dcp, bus publications during close / delay / reopen with the configured delay); gate variant of "
+           "direct mode (rollback mitigation polling a simulated cluster, an event parked in the gate when the first burst begins).",
+    "C12": "Later additions: rebalances and STREAM_END from inside CloseStream in the histories; a transient end injected from the AfterStreamStart "
+           "callback of a rebalance's reopen; finite mode with immediate acknowledgement and transient ends at the sampled end.",
+    "C13": "Later additions: server 5.0.0 (serial close); Couchbase heart-beat membership (incl. Close while a monitor round is in flight); a "
+           "server-initiated stream end during Close; pings that start failing shortly before Close (Close inside the retry wait of a failing "
+           "health round); after the quiet window no goroutine may execute library code; units StartStop (Start();Stop() back to back at the "
+           "checkpoint schedule's and the rollback mitigation's own API) and Fixed (replays of the three repaired shutdown defects).",
+    "C14": "Later additions: library-internal keys arrive as mutation / deletion / expiration; the connector's own documents configured in the "
+           "streamed bucket / another bucket / a file.",
+    "C15": "Later additions: fault classes end_during_open, partial_load, file_dump {partial, corrupt, isdir, notdir}, seq_omit (a successful "
+           "sequence-number query without an entry for an assigned vBucket).",
+    "C16": "Later additions: scrapes from inside the lifecycle callbacks ASStop / BSStop / ARS / BRE / BSStart of a rebalance; a third of the "
+           "histories with dcp.listener.skipUntil (dropped events are not 'accepted').",
+    "C17": "Later additions: zero-padded numbers in plain and unit spellings.",
+    "C18": "Later additions: a version text the parser itself rejects, a reply without the field, an error document: the client must not start.",
+    "C19": "Later additions: slow pings (a round longer than five retry waits); failure kinds plain error / deadline exceeded / canceled / "
+           "(partial result, error).",
+    "C20": "Later additions: unit CheckpointRead (cbMetadata.Load in a child process against silent / erroring nodes and attribute-less documents); "
+           "after every wire case with a late or missing reply no closure of the wrappers may be blocked on a gocbcore goroutine.",
+}
+for _k, _v in _MORE.items():
+    CHECKS[_k]["rule"] += " " + _v
